@@ -314,7 +314,8 @@ impl<'data> ProguardCache<'data> {
         // At this point, we know how many members/members-by-params each class has because we kept count,
         // but we don't know where each class's entries start. We'll rectify that below.
 
-        let mut writer = watto::Writer::new(writer);
+        // The number of bytes written so far, needed to align the sections.
+        let mut pos = 0;
         let string_bytes = string_table.into_bytes();
 
         let num_members = classes.values().map(|c| c.class.members_len).sum::<u32>();
@@ -332,8 +333,7 @@ impl<'data> ProguardCache<'data> {
             string_bytes: string_bytes.len() as u32,
         };
 
-        writer.write_all(header.as_bytes())?;
-        writer.align_to(8)?;
+        write_aligned(writer, &mut pos, header.as_bytes())?;
 
         let mut members = Vec::new();
         let mut members_by_params = Vec::new();
@@ -349,14 +349,13 @@ impl<'data> ProguardCache<'data> {
                     .flat_map(|m| m.into_iter()),
             );
             writer.write_all(c.class.as_bytes())?;
+            pos += c.class.as_bytes().len();
         }
-        writer.align_to(8)?;
+        write_aligned(writer, &mut pos, &[])?;
 
-        writer.write_all(members.as_bytes())?;
-        writer.align_to(8)?;
+        write_aligned(writer, &mut pos, members.as_bytes())?;
 
-        writer.write_all(members_by_params.as_bytes())?;
-        writer.align_to(8)?;
+        write_aligned(writer, &mut pos, members_by_params.as_bytes())?;
 
         writer.write_all(&string_bytes)?;
 
@@ -407,6 +406,19 @@ impl<'data> ProguardCache<'data> {
     pub(crate) fn read_string(&self, offset: u32) -> Result<&'data str, watto::ReadStringError> {
         StringTable::read(self.string_bytes, offset as usize)
     }
+}
+
+/// Writes `bytes` followed by the zero padding needed to reach the next multiple of 8 bytes.
+///
+/// Everything is written with `write_all`, so that writers which accept
+/// fewer bytes than offered still receive the complete output.
+fn write_aligned<W: Write>(writer: &mut W, pos: &mut usize, bytes: &[u8]) -> std::io::Result<()> {
+    writer.write_all(bytes)?;
+    *pos += bytes.len();
+    let padding = (8 - *pos % 8) % 8;
+    writer.write_all(&[0; 8][..padding])?;
+    *pos += padding;
+    Ok(())
 }
 
 /// A class that is currently being constructed in the course of writing a [`ProguardCache`].
